@@ -50,6 +50,22 @@ class FactoryRun:
             ok = parent is run.factory_ctx and parent is not None and parent.parent is run.owner
             saw = sorted(v.v for v in ctx.get_resources(TYPES[0]).values())
             run.log("taskBegan", h, ok, saw)
+            slow_close = spec.get("close_ticks")
+            if slow_close:
+                # the task's own context has teardown work that takes time: the task has "ended" - for its handle, for
+                # wait_finished(), for the handle set - only when that is done; that is where its end is logged
+                async def closer(exc: BaseException | None) -> None:
+                    with anyio.CancelScope(shield=True):
+                        await anyio.sleep(slow_close * TICK)
+                    idx = next((n for n, c in enumerate(EXN) if type(exc) is c), None)
+                    run.log("taskEnded", h, idx)
+
+                ctx.add_teardown_callback(closer, True)
+
+            def ended(exc_idx: Any) -> None:
+                if not slow_close:
+                    run.log("taskEnded", h, exc_idx)
+
             for ch in spec.get("children", []):
                 run.spawn(ch, "soon")
             cancelled = anyio.get_cancelled_exc_class()
@@ -74,14 +90,14 @@ class FactoryRun:
                 eoc = spec["beh"].get("excOnCancel")
                 if eoc is not None:
                     # the task's clean-up fails: an Exception escapes a task that was cancelled through its handle
-                    run.log("taskEnded", h, eoc)
+                    ended(eoc)
                     e = EXN[eoc]()
                     e.h = h
                     raise e from None
-                run.log("taskEnded", h, None)
+                ended(None)
                 raise
             exc = spec["beh"].get("exc")
-            run.log("taskEnded", h, exc)
+            ended(exc)
             if exc is not None:
                 e = EXN[exc]()
                 e.h = h
